@@ -173,6 +173,8 @@ Txid RandTxid(vh::Rng& rng)
     return Txid::FromUint256(h);
 }
 
+std::map<int, std::shared_ptr<ThreadPool>> g_pools;
+
 struct OverlayStats {
     uint64_t reads{0}, main_first{0}, wait_points{0}, fetched{0};
 };
@@ -186,12 +188,16 @@ int RunOverlayCase(const vh::Args& args, uint64_t c, e7::Affinity& aff)
     const int nthreads = THREADS[rng.below(7)];
     const int ncpu_req = CPUS[rng.below(3)];
     const uint32_t prob = PROBS[rng.below(4)];
-    const int ncpu = aff.Pin(ncpu_req, rng);
     Progress("populate");
 
-    auto pool = std::make_shared<ThreadPool>("vhfetch");
-    if (nthreads > 0) pool->Start(nthreads);
+    // Long-lived pools, one per size, as in production (the node keeps one pool for its lifetime).
+    auto& pool = g_pools[nthreads];
+    if (!pool) {
+        pool = std::make_shared<ThreadPool>("vhfetch");
+        if (nthreads > 0) pool->Start(nthreads);
+    }
 
+    const int ncpu = aff.Pin(ncpu_req, rng); // after the pool exists: applies to every thread of the process
     CCoinsViewDB db{DBParams{.path = "", .cache_bytes = 1 << 20, .memory_only = true}, CoinsViewOptions{}};
     SpyCache base{&db};
 
@@ -1204,6 +1210,7 @@ VH_CMD(c14_overlay)
         g_wd_case.store(c);
         RunOverlayCase(args, c, aff);
     }
+    g_pools.clear();
     e7::Uninstall();
     return 0;
 }
